@@ -60,7 +60,7 @@ Definition p_decl_type_args : fprog :=
            FDDef (mkfdef "main" [] FI64 (FLit 0))].
 Lemma decl_type_args_ill_typed : has_type_b p_decl_type_args = false.
 Proof. vm_compute. reflexivity. Qed.
-(* rejected since fix <commit15>; accepted by the code before it *)
+(* rejected since fix eb42971; accepted by the code before it *)
 Lemma decl_type_args_rejected : check p_decl_type_args = CErr EWrongNumberOfTypeArguments.
 Proof. vm_compute. reflexivity. Qed.
 Lemma decl_type_args_accepted_before_fix : exists q, old_check_decls p_decl_type_args = COk q.
@@ -95,7 +95,7 @@ Proof. vm_compute. reflexivity. Qed.
 Lemma param_applied_accepted_before_fix : exists q, old_check_decls p_param_applied = COk q.
 Proof. eexists. vm_compute. reflexivity. Qed.
 
-(* regression: soundness, full statement, was false of the checker before fix <commit15> (declaration types
+(* regression: soundness, full statement, was false of the checker before fix eb42971 (declaration types
    checked by head name only) *)
 Lemma old_check_decls_unsound :
   ~ (forall p q, old_check_decls p = COk q -> has_type p).
